@@ -260,7 +260,7 @@ def determine(value):
         i += 1
     scaled = float(value) / 2 ** i
     if scaled >= 0.9375:  # base value
-        return (base_values[i], 0, 1, 1)
+        return (v, 0, 1, 1)
     elif scaled >= 0.8125:
         # septuplet: scaled = 0.875
         return (base_values[i + 1], 0, 7, 4)
